@@ -391,7 +391,23 @@ def _single_edits(tier):
                 yield {'fam': 'mutated', 'g': g, 'muts': [{'k': 'len-raw', 'region': 'any', 'pos': i, 'val': d + 1, 'n': d}]}
 
 
+def _fuzz(ctx, name):
+    from ..core import run_fuzz
+    decs = sorted(DECODERS)
+    seeds = []
+    for g in _seed_specs():
+        w = gen_packet(g)
+        seeds.append(bytes([decs.index(g['kind'])]) + w)
+        el = T.single(w) if g['kind'] != 'name' else T.read_tlv(w, 0, len(w))
+        seeds.append(bytes([0x80 | decs.index(g['kind'])]) + w[el[2]:el[3]])
+    run_fuzz(ctx, name, 'c07', {'quick': 0, 'thorough': 4000000}, seeds)
+
+
 SUBCHECKS = {
+    'fuzz': SubCheck(run_case, external=_fuzz,
+                     note='atheris (libFuzzer) campaign, thorough tier only: coverage-guided bytes -> decoder selected by the first byte '
+                          '(optionally behind a correct outer type-length), the same differential oracle inside the target; even shards '
+                          'start from seed packets, odd shards from an empty corpus'),
     'single-edits': SubCheck(run_case, enumerate=_single_edits, exhaustive={'quick': False, 'thorough': True},
                              note='every single byte substitution (6 values) / truncation / byte insert / byte delete at every offset and every '
                                   'structural edit at every tree position of 5 seed packets (thorough); a stride-5 sample in quick'),
